@@ -26,7 +26,11 @@ Val(j) == [ver |-> j.ver, ph |-> j.phase, fins |-> ToSet(j.fins), val |-> j.val,
 (* running since), no new output has to appear; clean-up of torn-down inputs goes on as always                                   *)
 (* destroyer: destroy.Controller for the input type runs as well: when the system is quiet no input is left that it is meant to *)
 (* remove (unowned, tearing down, without finalizers)                                                                            *)
-F0 == [fin |-> FALSE, ignoreTd |-> FALSE, ignoreUntil |-> FALSE, cleanup |-> FALSE, ctrl |-> "", skip |-> FALSE, keep |-> {}, destroyer |-> FALSE, optional |-> FALSE]
+(* extra: a secondary input kind (qtransform: extra mapped input, secondary rN -> input rN; transform: extra input); the driver's *)
+(* transform is output = 10 * input + secondary of the same id (0 when absent); exts: id -> value of the secondaries              *)
+F0 == [fin |-> FALSE, ignoreTd |-> FALSE, ignoreUntil |-> FALSE, cleanup |-> FALSE, ctrl |-> "", skip |-> FALSE, keep |-> {}, destroyer |-> FALSE, optional |-> FALSE,
+       extra |-> FALSE, exts |-> Empty]
+Image(id) == 10 * ins[id].val + (IF flags.extra /\ id \in DOMAIN flags.exts THEN flags.exts[id] ELSE 0)
 (* cleanup configuration: the dependents of input id are the outputs id and id + 10 *)
 Dependents(os, id) == {o \in DOMAIN os : o % 10 = id}
 Init == ins = Empty /\ outs = Empty /\ flags = F0 /\ l = 1 /\ tid = "" /\ bad = FALSE /\ exposed = {}
@@ -82,13 +86,14 @@ UnconvergedTransform ==
      IN ~( /\ (ie /\ TreatedRunning(ins[id])) =>
                  IF flags.skip
                  THEN (oe /\ (outs[id].ph = "running" \/ Held(outs[id]))) \/ (~oe /\ id \notin flags.keep)
-                 ELSE (oe /\ ((outs[id].ph = "running" /\ outs[id].val = 10 * ins[id].val) \/ Held(outs[id])))
+                 ELSE (oe /\ ((outs[id].ph = "running" /\ outs[id].val = Image(id)) \/ Held(outs[id])))
            /\ (~ie) => (~oe \/ Held(outs[id]))
            /\ (ie /\ ~TreatedRunning(ins[id])) => ((~oe \/ Held(outs[id])) /\ ((~oe /\ ins[id].ph = "tearingDown") => flags.ctrl \notin ins[id].fins)) )}
 Destroyable == {id \in DOMAIN ins : ins[id].ph = "tearingDown" /\ ins[id].fins = {} /\ ins[id].owner = ""}
 Unconverged == (IF flags.cleanup THEN UnconvergedCleanup ELSE UnconvergedTransform) \cup (IF flags.destroyer THEN Destroyable ELSE {})
 Quiet(e) ==
-  IF Snap(e.ins) # ins \/ Snap(e.outs) # outs THEN Reject("write-log-incomplete", [ins |-> ins, outs |-> outs], [ins |-> Snap(e.ins), outs |-> Snap(e.outs)])
+  IF Snap(e.ins) # ins \/ Snap(e.outs) # outs
+     \/ ("exts" \in DOMAIN e /\ [id \in DOMAIN Snap(e.exts) |-> Snap(e.exts)[id].val] # flags.exts) THEN Reject("write-log-incomplete", [ins |-> ins, outs |-> outs], [ins |-> Snap(e.ins), outs |-> Snap(e.outs)])
   ELSE IF Judge = "C06" /\ Unconverged # {}
   THEN LET id == IF Unconverged \ exposed # {} THEN CHOOSE x \in Unconverged \ exposed : TRUE ELSE CHOOSE x \in Unconverged : TRUE IN
        Reject(IF flags.ignoreUntil /\ id \notin DOMAIN ins /\ id \in exposed THEN "not-converged-ignore-teardown-orphan"
@@ -103,9 +108,13 @@ Next == /\ l <= Len(TraceLog) /\ l' = l + 1
         /\ LET e == TraceLog[l] IN
              IF e.ev = "reset" THEN /\ ins' = Empty /\ outs' = Empty /\ tid' = e.tid /\ bad' = FALSE /\ exposed' = {}
                                     /\ flags' = [fin |-> e.fin, ignoreTd |-> e.ignoreTd, ignoreUntil |-> e.ignoreUntil, cleanup |-> e.cleanup, ctrl |-> e.ctrl,
-                                                  skip |-> FALSE, keep |-> {}, destroyer |-> ("destroyer" \in DOMAIN e /\ e.destroyer), optional |-> ("optional" \in DOMAIN e /\ e.optional)]
+                                                  skip |-> FALSE, keep |-> {}, destroyer |-> ("destroyer" \in DOMAIN e /\ e.destroyer), optional |-> ("optional" \in DOMAIN e /\ e.optional),
+                                                  extra |-> ("extra" \in DOMAIN e /\ e.extra), exts |-> Empty]
              ELSE IF bad THEN UNCHANGED <<ins, outs, flags, tid, bad, exposed>>
-             ELSE CASE e.ev = "w" -> Write(e)
+             ELSE CASE e.ev = "w" /\ e.kind = "ext" ->
+                         /\ flags' = [flags EXCEPT !.exts = IF e.op = "destroy" THEN Del(@, e.id) ELSE Put(@, e.id, e.v.val)]
+                         /\ UNCHANGED <<ins, outs, tid, bad, exposed>>
+                    [] e.ev = "w" /\ e.kind # "ext" -> Write(e)
                     [] e.ev = "quiet" -> Quiet(e)
                     [] e.ev = "skipmode" ->
                          /\ flags' = [flags EXCEPT !.skip = TRUE,
